@@ -109,14 +109,17 @@ class Table:
         self.keys = {}  # concrete key -> token
         self.strs = {}
         self.nums = {}
-        self.raw_brackets = set()  # tokens / key tokens whose raw text contains ']'
+        self.nkeys = 0
 
     # -- keys
     def key(self, k):
         t = self.keys.get(k)
         if t is None:
-            t = k if SAFE_KEY.match(k) else "K%d" % (len([x for x in self.keys.values() if x.startswith("K") and x[1:].isdigit()]) + 1)
-            # a safe key that looks like one of our generated tokens cannot occur (generated keys are lower case words)
+            if SAFE_KEY.match(k):
+                t = k
+            else:
+                self.nkeys += 1
+                t = "K%d" % self.nkeys
             self.keys[k] = t
             self.known.add(k)
         return t
@@ -125,7 +128,7 @@ class Table:
         """ijson prefix / relative key (segments joined by '.') -> token path. Keys never contain '.' in generated cases."""
         if dotted == "":
             return ""
-        return ".".join(self.key(seg) if seg != "item" or "item" in self.keys else "item" for seg in dotted.split("."))
+        return ".".join(self.keys.get(seg, seg) for seg in dotted.split("."))
 
     # -- scalars
     def scalar(self, v):
